@@ -369,6 +369,79 @@ func runC24(c *Ctx) {
 			}
 			c.Analysed(ci)
 			c.Check(nRel >= nHandles && nRel > 0, r5, key, ci.Decl.Pos(), "Close releases "+itoa(nRel)+" handle(s); the type stores "+itoa(nHandles))
+			// release-once: every Release in a method of the holder is one-shot — guarded by `handle != nil` and followed by
+			// `handle = nil`, or guarded by a successful CompareAndSwap on a closed flag. A second release would steal
+			// another reader's reference and let the pool close a descriptor that is still in use.
+			for _, mi := range p.FuncsIn(shortPkg(tn.Pkg().Path())) {
+				if recvTypeName(mi.Obj) != tn || mi.Decl.Body == nil {
+					continue
+				}
+				minfo := mi.Pkg.TypesInfo
+				mf := p.FlowOf(mi)
+				seenRel := map[string]int{}
+				for _, loc := range mf.sinkSites(true, func(cc *ast.CallExpr) bool { return Callee(minfo, cc) == relObj.Obj }) {
+					call := nodeHasCall(loc.B.Nodes[loc.Idx], false, func(cc *ast.CallExpr) bool { return Callee(minfo, cc) == relObj.Obj })
+					recvS := exprString(unparen(call.Fun).(*ast.SelectorExpr).X)
+					rkey := mi.Name() + ":" + recvS + ".Release:once"
+					seenRel[rkey]++
+					if seenRel[rkey] > 1 {
+						rkey += "#" + itoa(seenRel[rkey])
+					}
+					var handleFld types.Object
+					// the holder's field paired with this shared file: same final name (it.s.idx ↔ it.idx)
+					var wantFld *types.Var
+					if rs, ok := unparen(unparen(call.Fun).(*ast.SelectorExpr).X).(*ast.SelectorExpr); ok {
+						wantFld = fieldOf(tn, rs.Sel.Name)
+					}
+					oneShot := AnyGuard(
+						FactGuard(func(_ *Flow, fact Fact) bool { // it.idx != nil
+							be, ok := unparen(fact.Atom).(*ast.BinaryExpr)
+							if !ok || !isNil(minfo, be.Y) || (be.Op == token.NEQ) != fact.Truth {
+								return false
+							}
+							if sel, ok := unparen(be.X).(*ast.SelectorExpr); ok {
+								if v, ok := minfo.Uses[sel.Sel].(*types.Var); ok && v.IsField() && (wantFld == nil || v == wantFld) {
+									handleFld = v
+									return true
+								}
+							}
+							return false
+						}),
+						FactGuard(func(_ *Flow, fact Fact) bool { // closed.CompareAndSwap(false, true) succeeded
+							call, ok := unparen(fact.Atom).(*ast.CallExpr)
+							if !ok || !fact.Truth {
+								return false
+							}
+							fn := Callee(minfo, call)
+							return fn != nil && fn.Name() == "CompareAndSwap"
+						}),
+					)
+					if h := mf.UnguardedPath(oneShot, loc); h != nil {
+						c.Violate(r5, rkey, call.Pos(), "Release is not one-shot: reachable without a `handle != nil` check or a successful CompareAndSwap (lines "+mf.pathString(h)+"); a repeated release steals another reader's reference")
+						continue
+					}
+					if handleFld != nil {
+						// the handle field is cleared before any return
+						clears := func(n ast.Node) bool {
+							as, ok := n.(*ast.AssignStmt)
+							if !ok {
+								return false
+							}
+							for i, l := range as.Lhs {
+								if sel, ok := unparen(l).(*ast.SelectorExpr); ok && minfo.Uses[sel.Sel] == handleFld && i < len(as.Rhs) && isNil(minfo, as.Rhs[i]) {
+									return true
+								}
+							}
+							return false
+						}
+						if h := mf.Search(SearchOpts{Starts: []Loc{After(loc)}, Sink: isReturn, Barrier: clears}); h != nil {
+							c.Violate(r5, rkey, call.Pos(), "the handle field is not cleared after Release: a later Close releases the same reference again")
+							continue
+						}
+					}
+					c.Hold(r5, rkey, call.Pos(), "one-shot release (nil-checked and cleared, or CompareAndSwap-guarded)")
+				}
+			}
 		}
 		c.Floor(r5, 14)
 	}
